@@ -328,4 +328,46 @@ theorem bucketQuantileWith_decomp (almost : XR → XR → Bool) (buckets : List 
         fops_beq, fops_pinf, hinf]
       simp
 
+/-- in a sorted list that contains the bound +Inf, the last bound is +Inf -/
+theorem sorted_last_pinf (s : List (Bucket XR)) (hok : AllUbOk s) (S : SortedUb s)
+    (hinf : ∃ b ∈ s, b.ub = .pinf) : ubAt s (s.length - 1) = .pinf := by
+  obtain ⟨b, hb, e⟩ := hinf
+  obtain ⟨i, hi, rfl⟩ := List.getElem_of_mem hb
+  rw [ubAt_lt s (s.length - 1) (by omega)]
+  by_cases hil : i = s.length - 1
+  · subst hil; exact e
+  · have P := List.pairwise_iff_getElem.mp S i (s.length - 1) hi (by omega) (by omega)
+    rw [e] at P
+    rcases hok s[s.length - 1] (List.getElem_mem ..) with h | ⟨r, h⟩
+    · exact h
+    · rw [h] at P; simp [XR.lt] at P
+
+/-- when some bound is +Inf (and none is NaN or -Inf) `BucketQuantile` is the tail function on the
+    sorted/coalesced list -/
+theorem bucketQuantileWith_tail (almost : XR → XR → Bool) (buckets : List (Bucket XR)) (hok : AllUbOk buckets)
+    (hinf : ∃ b ∈ buckets, b.ub = .pinf) (q : Rat) (h0 : 0 ≤ q) (h1 : q ≤ 1) :
+    bucketQuantileWith almost (.fin q) buckets = .ok (bqTail almost (.fin q) (sortCoalesce buckets)) := by
+  have hS := sortB_sorted buckets hok
+  have hokS : AllUbOk (sortB buckets) := fun y hy => hok y ((mem_sortB y buckets).mp hy)
+  have hinfS : ∃ b ∈ sortB buckets, b.ub = .pinf := by
+    obtain ⟨b, hb, e⟩ := hinf
+    exact ⟨b, (mem_sortB b buckets).mpr hb, e⟩
+  have hlast := sorted_last_pinf _ hokS hS hinfS
+  unfold sortCoalesce
+  cases hs : sortB buckets with
+  | nil => rw [hs] at hinfS; obtain ⟨b, hb, _⟩ := hinfS; simp at hb
+  | cons first rest =>
+    rw [hs] at hlast
+    have a : ¬ q < 0 := by grind
+    have b : ¬ 1 < q := by grind
+    simp only [bucketQuantileWith, fops_isNaN, XR.isNaN, fops_lt, fops_zero, fops_one, XR.lt_fin, a, b, hs,
+      fops_beq, fops_pinf, hlast]
+    simp [XR.beq]
+
+/-- the fix-up never changes the first bucket -/
+theorem cOf_zero (almost : XR → XR → Bool) (cs : List (Bucket XR)) : cOf almost cs 0 = ratOf (cntAt cs 0) := by
+  cases cs with
+  | nil => rfl
+  | cons b bs => simp [cOf, ensureMonotonic]
+
 end Prom.Quantile
